@@ -17,6 +17,7 @@ Pr(xs) == SCall(ECallB("print", xs))
 Cnt == EVar("count", T_num)
 Last == EVar("last", T_str)
 S(cp) == EStr(cp)
+GX == EVar("x", T_num)
 
 \* handler bodies, parameterised by the parameter list (so that `_` and omitted parameters are covered)
 KeyBody(named) == <<SAsg(Cnt, EBin("+", Cnt, Num(1)))>>
@@ -41,12 +42,25 @@ Hs == [ key1 |-> Handler("key", <<PS("k", T_str)>>, KeyBody(TRUE)),
         anim0 |-> Handler("animate", <<>>, AnimBody(FALSE)),
         input2 |-> Handler("input", <<PS("id", T_str), PS("val", T_str)>>, InputBody(TRUE)),
         inputv |-> Handler("input", <<PS("_", T_str), PS("val", T_str)>>, InputBody(FALSE)),
-        up0 |-> Handler("up", <<>>, UpBody) ]
+        up0 |-> Handler("up", <<>>, UpBody),
+        \* handlers without parameters whose bodies use GLOBALS that have the names the events' payloads have in the
+        \* documentation (x y n s id val): they ignore the payload, so these are the globals
+        downg |-> Handler("down", <<>>, <<SAsg(GX, EBin("+", GX, Num(1))), Pr(<<S(<<100>>), GX, EVar("y", T_num)>>)>>),
+        animg |-> Handler("animate", <<>>, <<SAsg(EVar("n", T_num), EBin("+", EVar("n", T_num), Num(1))), Pr(<<S(<<97>>), EVar("n", T_num)>>)>>),
+        keyg |-> Handler("key", <<>>, <<SAsg(EVar("s", T_str), EBin("+", EVar("s", T_str), S(<<33>>))), Pr(<<S(<<107>>), EVar("s", T_str)>>)>>),
+        inputg |-> Handler("input", <<>>, <<Pr(<<S(<<105>>), EVar("id", T_str), EVar("val", T_str)>>), SAsg(EVar("val", T_str), S(<<119>>))>>),
+        moveg |-> Handler("move", <<PS("_", T_num), PS("y", T_num)>>, <<Pr(<<S(<<109>>), GX, EVar("y", T_num)>>)>>),
+        \* err and errmsg are globals like any other: what earlier code left in them is what a handler reads
+        keyerr |-> Handler("key", <<PS("k", T_str)>>, <<SInfer("nn", ECallB("str2num", <<EVar("k", T_str)>>)), Pr(<<EVar("nn", T_num), EVar("err", T_bool)>>)>>),
+        uperr |-> Handler("up", <<>>, <<Pr(<<S(<<117>>), EVar("err", T_bool), EVar("errmsg", T_str)>>)>>),
+        downerr |-> Handler("down", <<>>, <<Pr(<<S(<<100>>), EVar("err", T_bool)>>), SAsg(EVar("err", T_bool), EBool(TRUE)), SAsg(EVar("errmsg", T_str), S(<<111, 119, 110>>))>>) ]
 
-HandlerSets == << <<"key1", "down2", "anim1", "input2">>, <<"key0", "downx", "anim0">>, <<"downy", "inputv", "up0">>,
+HandlerSets == << <<"downg", "animg", "keyg", "inputg", "moveg">>, <<"keyerr", "uperr", "downerr">>, <<"key1", "down2", "anim1", "input2">>, <<"key0", "downx", "anim0">>, <<"downy", "inputv", "up0">>,
                   <<"key1">>, <<"down0", "up0">>, <<"anim1", "key0", "down2", "input2", "up0">>, <<>> >>
 
-Main == <<SInfer("count", Num(0)), SInfer("last", S(<<45>>)), Pr(<<S(<<109>>), Cnt, Last>>)>>
+Main == <<SInfer("count", Num(0)), SInfer("last", S(<<45>>)), Pr(<<S(<<109>>), Cnt, Last>>),
+          SInfer("x", Num(100)), SInfer("y", Num(200)), SInfer("n", Num(300)), SInfer("s", S(<<103>>)), SInfer("id", S(<<71>>)), SInfer("val", S(<<86>>)),
+          Pr(<<GX, EVar("y", T_num), EVar("n", T_num), EVar("s", T_str), EVar("id", T_str), EVar("val", T_str)>>)>>
 
 Events == << [ev |-> "key", args |-> <<VStr(<<97>>)>>], [ev |-> "key", args |-> <<VStr(<<228, 8364>>)>>],
              [ev |-> "down", args |-> <<I(1), Fin(5, 1)>>], [ev |-> "up", args |-> <<I(3), I(4)>>],
